@@ -94,6 +94,8 @@ pub fn run(ctx: &mut Ctx) {
             let bits = *rng.pick(&[0u32, 0, 1, 2, 3, 5, 8]);
             rsdd::verif::set_residual_hash_bits(Some(bits));
             rsdd::verif::take_component_hash_conflicts();
+            // half of the cases also degrade the node store's hash (hook H6)
+            let w = crate::caps::WeakHash::new(if rng.bool() { Some(crate::caps::weak_classes(rng, &ctx.profile.clone(), true)) } else { None }, None);
             // mostly CNFs that need branching (wide clauses, few units), so that the cache is
             // consulted with many different residual formulas
             let cl = if rng.chance(1, 4) { gen_cnf(rng, 9) } else { gen_branchy(rng) };
@@ -103,6 +105,7 @@ pub fn run(ctx: &mut Ctx) {
             one(ctx, &cl, &p, false);
             one(ctx, &cl, &p, true);
             ctx.count("component_cache_hash_conflicts", rsdd::verif::take_component_hash_conflicts());
+            ctx.count("unique_table_hash_clashes", w.clashes());
         });
     }
     // one builder, several CNFs over the same variables (relatives of each other: shared
